@@ -415,3 +415,60 @@ func (wg *WaitGroup) wait() {
 	rt.WaitUntil(&wg.waiters, func() bool { return wg.n == 0 })
 	rt.Acquire(unsafe.Pointer(&wg.tok))
 }
+
+// ------------------------------------------------------------------ Cond
+
+// Cond is a simulated sync.Cond with the ticket semantics of the real one:
+// a Signal wakes the longest-waiting Wait that started before it, a Broadcast
+// all of them; a Wait that starts afterwards is not woken.
+type Cond struct {
+	L       Locker
+	wait    uint64 // tickets handed out
+	notify  uint64 // tickets notified
+	waiters rt.WaitList
+	tok     uint64
+}
+
+func NewCond(l Locker) *Cond { return &Cond{L: l} }
+
+func (c *Cond) Wait() {
+	t := c.ticket()
+	c.L.Unlock()
+	c.block(t)
+	c.L.Lock()
+}
+
+//go:norace
+func (c *Cond) ticket() uint64 {
+	t := c.wait
+	c.wait++
+	return t
+}
+
+//go:norace
+func (c *Cond) block(t uint64) {
+	rt.SyncPoint('C', 0)
+	rt.WaitUntil(&c.waiters, func() bool { return c.notify > t })
+	rt.Acquire(unsafe.Pointer(&c.tok))
+}
+
+func (c *Cond) Signal() {
+	rt.SyncPoint('c', 0)
+	c.signal(false)
+}
+
+func (c *Cond) Broadcast() {
+	rt.SyncPoint('c', 0)
+	c.signal(true)
+}
+
+//go:norace
+func (c *Cond) signal(all bool) {
+	rt.ReleaseMerge(unsafe.Pointer(&c.tok))
+	if all {
+		c.notify = c.wait
+	} else if c.notify < c.wait {
+		c.notify++
+	}
+	rt.WakeAll(&c.waiters)
+}
